@@ -557,7 +557,7 @@ func c07Inputs(c *Check) map[string][][]byte {
 		}
 	}
 	// huge announced lengths (see C08 for the budgets; here: the process must survive)
-	for _, n := range []uint64{1 << 31, 1 << 40, 1<<63 - 1, 1<<64 - 1} {
+	for _, n := range []uint64{1 << 32, 1 << 40, 1<<63 - 1, 1<<64 - 1} { // all beyond the default MaxArraySizeBytes: nothing may be reserved (sizes up to the limit: C08)
 		for _, head := range [][]byte{{0x93}, {0x90}, {0x7f, 0xe6}, {0x94}, {0x92, 0x01}, {0x7f, 0xf3, 0x03, 'a', '/', 'b'}, {0x91}, {0x7f, 0xf2}} {
 			d := append([]byte{0x81, 0x00}, head...)
 			d = append(d, uleb(n)...)
